@@ -24,9 +24,11 @@ CHECKS = {
              "is the tag of the bytes now stored; GET/HEAD and the listing agree; equal strong tags iff equal bytes; a "
              "PUT changes the tag of at most the one member it writes; restarts change none. Tied to /repo by reading "
              "every view (PUT, GET, HEAD, PROPFIND, multiget, query, sync) after every step through both front ends and "
-             "re-hashing every served body.",
-        note="correspondence is sampling; SHA-1/MD5 collision-freeness; report rendering itself is observed, not modelled.",
-        tech="Lean 4 proof over the content-addressed HTTP model + all-views differential audit",
+             "re-hashing every served body. "
+             "web.create_strong_etag / extract_strong_etag are TRANSLATED from /repo on every run: the first is proved to be the model's `strong` and injective, the second to invert it on every tag that does not begin or end with a quote (what the conditional-update path of web.py relies on); the emitted Lean is run against the Python functions on a grid (translator validation).",
+        note="correspondence is sampling; SHA-1/MD5 collision-freeness; report rendering itself is observed, not modelled. "
+             "translator (harness/translate.py) trusted for the two ETag functions, itself tested differentially on every run (xgdriver).",
+        tech="Python->Lean translation (strong-ETag functions) + Lean 4 proof over the content-addressed HTTP model + all-views differential audit",
         ref="5/C02"),
     "C03": dict(
         text="webdav.etag_matches is TRANSLATED from /repo's source to Lean on every run and proved equal to the model, "
@@ -106,12 +108,13 @@ CHECKS = {
              "histories (each filter repeated past the threshold, filters interleaved, writes in between, thresholds "
              "0/1/5) is compared with the Lean model of direct evaluation, at the store API and through REPORT on both "
              "front ends; the index-side model is compared with the real index_keys/get_indexes/check_from_indexes on "
-             "generated inputs (idxtie.py), and the two real paths with each other on the proved class.",
+             "generated inputs (idxtie.py), and the two real paths with each other on the proved class. "
+             "icalendar._unescape_text (an index-scan while loop) is TRANSLATED from /repo on every run into the Except monad with fuel and proved equal to the model on every text (so it raises no IndexError and terminates); the TEXT and CATEGORIES round-trip theorems are restated on the generated code itself.",
         note="partial: outside the class Simple (several components of one type, repeated properties) the two paths "
              "differ — recorded findings; the text round trip through the index (escape by icalendar, un-escape by "
              "xandikos) and vobject/icalendar parsing are parameters validated by correspondence; unparseable stored "
              "files are not generated.",
-        tech="Lean 4 state-machine proof (history induction) + proved evaluator agreement on a structural class + "
+        tech="Python->Lean translation (_unescape_text loop) + Lean 4 state-machine proof (history induction) + proved evaluator agreement on a structural class + differential monitors"
              "differential monitors",
         ref="5/C10"),
     "C11": dict(
@@ -171,11 +174,12 @@ CHECKS = {
              "query, fragment or space, a member href to split into (collection, name) for every clean name, the POST "
              "Location to decode to collection/name, and a listing to hold exactly the blobs of the tree, each once. "
              "Tied to /repo by predicting the exact text of every href in PROPFIND, query, sync-collection and Location "
-             "responses and by dereferencing each as sent through both front ends under three route prefixes.",
+             "responses and by dereferencing each as sent through both front ends under three route prefixes. "
+             "webdav.ensure_trailing_slash is TRANSLATED from /repo on every run and proved equal to the model's (it only ever appends one slash and its result ends in '/').",
         note="the XML serialisation, the front ends' request-target decoding (aiohttp/yarl, the WSGI PATH_INFO "
              "convention) and dulwich's tree listing are exercised, not modelled; names with '/' or control characters "
              "are outside the grammar; route prefixes are ASCII.",
-        tech="Lean 4 proof over a urllib/posixpath model + differential correspondence (href prediction and dereference)",
+        tech="Python->Lean translation (ensure_trailing_slash) + Lean 4 proof over a urllib/posixpath model + differential correspondence (href prediction and dereference)",
         ref="5/C16"),
     "C17": dict(
         text="The multiget driver is modelled in Lean (read_href_element, href_to_path, the two loops of "
@@ -185,11 +189,12 @@ CHECKS = {
              "that href alone (independence), data is served only for a member of the right kind and then with the "
              "ETag and body GET serves, everything else is 404/no data, an emitted href reads back as its path, the "
              "mount point is a boundary. Tied to /repo by replaying every multiget of generated histories on the "
-             "model, by a by-construction oracle against GET, and by re-asking hrefs alone; both front ends.",
+             "model, by a by-construction oracle against GET, and by re-asking hrefs alone; both front ends. "
+             "webdav.href_to_path is TRANSLATED from /repo on every run and proved equal to the model's hrefToPathChars (mount-point test on whole segments).",
         note="absolute URLs on another host are answered like their path (the code does not know its host name) and "
              "are not judged; XML transport normalises CRLF in the data, compared modulo that; urlsplit's authority "
              "handling is in the model only for ASCII authorities without brackets.",
-        tech="Lean 4 invariant proof over the request loop + refinement to a per-href spec + differential correspondence",
+        tech="Python->Lean translation (href_to_path) + Lean 4 invariant proof over the request loop + refinement to a per-href spec + differential correspondence",
         ref="5/C17"),
     "C18": dict(
         text="Proved in Lean: create_href with a base decodes to base/ + href for every clean directory base and every "
@@ -202,12 +207,13 @@ CHECKS = {
              "preserves the data, and the first --defaults start makes the principal, both home sets, the default "
              "calendar, address book and inbox exist. Tied to /repo by predicting the exact text of every discovery "
              "href and the exact set of repositories (type + metadata bytes) on disk after every start, over front "
-             "ends x route prefixes x principal paths x start sequences, with a client that follows only returned hrefs.",
+             "ends x route prefixes x principal paths x start sequences, with a client that follows only returned hrefs. "
+             "The redirect condition of wsgi_helpers.WellknownRedirector.__call__ and WELLKNOWN_DAV_PATHS are TRANSLATED from /repo on every run: both well-known URLs are proved to be redirected for every division of the path between SCRIPT_NAME and PATH_INFO (redirector mounted at the root, at an alias, at the exact URL), and nothing whose normalised path is not one of the two is intercepted; the walk starts from /.well-known under each of the three mounts.",
         note="a principal path whose first segment reads as a URL scheme ('x:y/…') or that lacks the leading '/' is "
              "outside the hypotheses (and outside the property's quantifier): create_href takes it for an absolute "
              "URL / the principal is not recognised; aiohttp's routing and the WSGI server's mounting are exercised, "
              "not modelled.",
-        tech="Lean 4 proof over the urllib model (href algebra) + invariant proof over starts + differential correspondence",
+        tech="Python->Lean translation (well-known redirect condition, ensure_trailing_slash) + Lean 4 proof over the urllib model (href algebra) + invariant proof over starts + differential correspondence",
         ref="5/C18"),
     "C04": dict(
         text="Partial. The on-disk pieces of one store write and the ordered micro-steps the code performs on them are "
@@ -240,7 +246,8 @@ CHECKS = {
              "— recorded findings. Tied to /repo by stopping real operations at every yield point and running the "
              "other one there (all single-pre-emption schedules of 6-12 operation pairs, both orders), in threads "
              "sharing the store object and in separate processes; every outcome is judged against the real code run "
-             "sequentially in every order, and the model must predict results, members and verdict of every schedule.",
+             "sequentially in every order, and the model must predict results, members and verdict of every schedule. "
+             "At the HTTP level the first request's worker is also stopped right after the commit (ref moved, index not rewritten yet), and requests that have nothing to do with the two writers (DELETE / MKCALENDAR / PROPPATCH of another collection, a listing) are answered while it is stopped.",
         note="partial: pre-emption only at the yield points between the phases of an operation (inside a dulwich call "
              "or a rename the operation is taken as atomic), two operations and one pre-emption per schedule; the GIL-free "
              "orderings of C extensions are not explored. The thread-mode theorem rests on the lock of fix 3d6b046 being "
